@@ -25,6 +25,7 @@ ASSUMPTIONS = ["singular values of the generated data span at most three orders 
                "eigenvalues follow menpo's documented convention: second moments about the model mean divided by n-1 (also for uncentred models)",
                "variance fractions are drawn away (>=1e-6) from the cumulative ratios, so the expected component count is unambiguous"]
 DECIDING_TAPS = ["PCA.invariant", "svd_reference"]
+REPLAY_PATHS = ['menpo/model/test', 'menpo/math/test']      # suite replay (thorough tier): the repository's own tests under these monitors
 SHARDS = {"quick": 8, "thorough": 16}
 
 _CTX = [None]
@@ -142,6 +143,10 @@ class ProjectionMonitor(taps.Monitor):
             rec = PCAVectorModel.reconstruct(m, x)
             if np.abs((x - rec) - resid).max() > 1e-8 * scale:
                 ctx.fail("project_out_is_not_the_complement_of_reconstruct", cls=cls)
+
+
+def replay_case_begin():
+    LEDGER.clear()
 
 
 def setup(ctx):
